@@ -38,6 +38,12 @@
 (*   NoneAdded       a denoted identifier is not an input (covers renaming:*)
 (*                   a renamed id is one lost and one added)               *)
 (*   InputUntouched  the caller's collection changed                       *)
+(*   OutputFormIsList / OutputFormIsString  the returned object has not    *)
+(*                   the type of the requested form (format='list' must    *)
+(*                   give a list whose elements denote the ids)            *)
+(*   MustReject      an identifier without an integer-compatible suffix    *)
+(*                   (empty, or with an ASCII letter) did not raise: the   *)
+(*                   docstring documents ValueError                        *)
 (* MustAccept(id): the suffix after the last delimiter is an integer       *)
 (* printed as "%04d" (>= 4 digits, no padding beyond 4) and the delimiter, *)
 (* if any, is not the first character.  Other identifiers may be rejected  *)
@@ -129,16 +135,31 @@ MustAccept(id, delim) ==
 (*   after  : the same collection read again after the call                *)
 (*   delim  : delimiter character code                                     *)
 (*   raised : "" if the call returned, else the exception class name       *)
+(*   form   : the requested format, "str" or "list"                         *)
 (*   kind   : "text" (payload is one text in the str layout) or            *)
 (*            "elems" (payload is a sequence of texts, the list layout)    *)
 (***************************************************************************)
-Judge(ids, after, delim, raised, kind, payload) ==
+\* an identifier whose suffix is empty or holds an ASCII letter has no "integer-compatible
+\* section": the docstring of _get_omkm_range documents ValueError for it
+NotIntCompatible(id, delim) ==
+   LET f == Suffix(id, delim) IN Len(f) = 0 \/ \E i \in 1..Len(f) : IsUpperC(f[i]) \/ IsLowerC(f[i])
+\* the output has the type of the requested form: a str for "str"; a list for "list" (the text
+\* `[]` is tolerated as the list form of NO identifiers: it is what the code returns for an empty
+\* collection - an observation, see notes/C18.md - and never for a non-empty one)
+OutputFormOK(ids, form, kind, payload) ==
+   IF form = "list" THEN kind = "elems" \/ (kind = "text" /\ Len(ids) = 0 /\ payload = EmptyList)
+   ELSE kind = "text"
+Judge(ids, after, delim, raised, form, kind, payload) ==
    (IF after = ids THEN {} ELSE {"InputUntouched"})
    \cup
    (IF raised # ""
     THEN (IF \A k \in 1..Len(ids) : MustAccept(ids[k], delim) THEN {"Raises"} ELSE {})
          \cup (IF raised \in {"ValueError", "TypeError"} THEN {} ELSE {"RejectKind"})
-    ELSE LET layoutOK == IF kind = "text" THEN StrFormWF(payload) ELSE ListFormWF(payload) IN
+    ELSE (IF OutputFormOK(ids, form, kind, payload) THEN {}
+          ELSE {IF form = "list" THEN "OutputFormIsList" ELSE "OutputFormIsString"})
+         \cup (IF \E k \in 1..Len(ids) : NotIntCompatible(ids[k], delim) THEN {"MustReject"} ELSE {})
+         \cup
+         LET layoutOK == IF kind = "text" THEN StrFormWF(payload) ELSE ListFormWF(payload) IN
          IF ~layoutOK THEN {"WellFormed"}
          ELSE LET entries == IF kind = "text" THEN StrEntries(payload) ELSE ListEntries(payload) IN
               IF \E k \in 1..Len(entries) : ~EntryWF(entries[k]) THEN {"WellFormed"}
